@@ -3,13 +3,13 @@
    triangular substitution routines solve their systems.  Statements only;
    every proof is `exact` of a lemma of Proofs/Gauss.v.  All statements are about
    the R instance of the model (exact arithmetic); rounding (the backward-error
-   envelope, "well-conditioned systems are never refused") is measured by the
+   envelope, "well-conditioned systems are never refused" in floating point) is measured by the
    correspondence check and the exact oracle, not proved.
    The model is Model/Gauss.v = spindalis/src/solvers/gaussian_elim.rs after the
    repair 20730a8 (flagged elimination / zero row => Err SingularMatrix, empty
    system => Err NonSquareMatrix). *)
 From Coq Require Import ZArith List Reals Lia Floats.
-From SV Require Import Base.Num Base.Outcome Base.Mat Model.Subst Model.Gauss Proofs.Gauss.
+From SV Require Import Base.Num Base.Outcome Base.Mat Model.Subst Model.Gauss Proofs.Gauss Proofs.GaussB.
 Import ListNotations.
 Local Open Scope R_scope.
 
@@ -49,6 +49,33 @@ Check c08_singular_refused : forall (n : nat) (A : mat R) (tol : R), 0 < tol ->
       forall j, (j < n)%nat -> Rsum_n n (fun i => w i * A i j) = 0) ->
   forall b : vec R, ge n n A n b tol = Err ESingularMatrix.
 Print Assumptions c08_singular_refused.
+
+(* the exact-arithmetic counterpart of "well-conditioned systems are never refused": a matrix with no
+   non-trivial left null vector is accepted, for every right-hand side, by every sufficiently small
+   positive tolerance (t0 = the smallest scaled pivot of the tolerance-free elimination path); with
+   c08_singular_refused: for small tolerances ge returns a solution exactly when A is non-singular *)
+Theorem c08_nonsingular_accepted : forall (n : nat) (A : mat R), (0 < n)%nat ->
+  (forall w : vec R, (forall j, (j < n)%nat -> Rsum_n n (fun i => w i * A i j) = 0) ->
+                     forall i, (i < n)%nat -> w i = 0) ->
+  exists t0, 0 < t0 /\ forall tol, 0 < tol <= t0 -> forall b : vec R, exists x, ge n n A n b tol = Ok x.
+Proof. exact Proofs.GaussB.c08_nonsingular_accepted. Qed.
+Check c08_nonsingular_accepted : forall (n : nat) (A : mat R), (0 < n)%nat ->
+  (forall w : vec R, (forall j, (j < n)%nat -> Rsum_n n (fun i => w i * A i j) = 0) ->
+                     forall i, (i < n)%nat -> w i = 0) ->
+  exists t0, 0 < t0 /\ forall tol, 0 < tol <= t0 -> forall b : vec R, exists x, ge n n A n b tol = Ok x.
+Print Assumptions c08_nonsingular_accepted.
+
+(* the same from the absence of a right null vector (what the elimination invariant gives directly) *)
+Theorem c08_nonsingular_accepted_r : forall (n : nat) (A : mat R), (0 < n)%nat ->
+  (forall x : vec R, (forall i, (i < n)%nat -> Rsum_n n (fun j => A i j * x j) = 0) ->
+                     forall j, (j < n)%nat -> x j = 0) ->
+  exists t0, 0 < t0 /\ forall tol, 0 < tol <= t0 -> forall b : vec R, exists x, ge n n A n b tol = Ok x.
+Proof. exact Proofs.GaussB.c08_nonsingular_accepted_r. Qed.
+Check c08_nonsingular_accepted_r : forall (n : nat) (A : mat R), (0 < n)%nat ->
+  (forall x : vec R, (forall i, (i < n)%nat -> Rsum_n n (fun j => A i j * x j) = 0) ->
+                     forall j, (j < n)%nat -> x j = 0) ->
+  exists t0, 0 < t0 /\ forall tol, 0 < tol <= t0 -> forall b : vec R, exists x, ge n n A n b tol = Ok x.
+Print Assumptions c08_nonsingular_accepted_r.
 
 (* malformed systems get error values; the solver never panics *)
 Theorem c08_shape : forall (h w lb : nat) (A : mat R) (b : vec R) (tol : R),
@@ -106,6 +133,10 @@ Proof. exact Proofs.Gauss.ex_ge_ok. Qed.
 (* ... the null-vector hypothesis is met by the all-ones 2x2 matrix, which is therefore refused ... *)
 Example c08_nonvacuous_singular : forall b : vec R, ge 2 2 (fun _ _ => 1) 2 b (1 / 1000) = Err ESingularMatrix.
 Proof. exact Proofs.Gauss.ex_singular_refused. Qed.
+(* ... the 2x2 identity meets the hypothesis of c08_nonsingular_accepted and is therefore accepted ... *)
+Example c08_nonvacuous_nonsingular : exists t0, 0 < t0 /\ forall tol, 0 < tol <= t0 ->
+  forall b : vec R, exists x, ge 2 2 (fun i j => if (i =? j)%nat then 1 else 0) 2 b tol = Ok x.
+Proof. exact Proofs.GaussB.ex_identity_accepted. Qed.
 (* ... and the very same Gallina term, run on IEEE doubles, solves a 2x2 system that needs the row swap
    ([[1,2],[4,4]] x = [5,6] : x = [-2, 3.5]) *)
 Example c08_float_run :
